@@ -246,6 +246,11 @@ def r4_bits(ctx):
       ok = False
     ctx.ob('C13.R4', f, 'tag bytes are big-endian slices of the tag', ok,
            'encoder does not produce [tag>>16 & 0xff, tag>>8 & 0xff, tag & 0xff]', why_tag)
+    # ... of the tag it was GIVEN: the parameter (or self._id) is not rebound before the bytes are taken
+    reb = sorted(set(U(n) for n in ast.walk(f.node) if isinstance(n, (ast.Name, ast.Attribute)) and isinstance(n.ctx, (ast.Store, ast.Del))
+                     and (U(n) in f.params or U(n).startswith('self.'))))
+    ctx.ob('C13.R4', f, 'the encoder does not change the tag before slicing it', not reb, 'the encoder rebinds %s before taking the bytes' % reb,
+           why_tag + '; a tag masked or offset before encoding goes out under a different number than the one registered in the tag map')
   if len(encs) == 2:
     ctx.ob('C13.R4', encs[0], 'sibling tag encoders agree', len(vecs) == 2 and all(a.bits == b.bits for a, b in zip(*vecs)) if len(vecs) == 2 else False,
            'Tag.Encode and _EncodeTag disagree', why_tag)
